@@ -389,6 +389,11 @@ func H12c_q() {
 	}
 	hasName := vBool("hasName")
 	hasTimeout := vBool("hasTimeout")
+	zeroTimeout := vBool("zeroTimeout")
+	wantTimeout := 250 * time.Millisecond
+	if zeroTimeout {
+		wantTimeout = 0
+	}
 	hasTrailers := vBool("hasTrailers")
 	repeat := vBool("repeat")
 	req := mkReq("r1")
@@ -397,6 +402,9 @@ func H12c_q() {
 	}
 	if hasTimeout {
 		req.Header["Connect-Timeout-Ms"] = []string{"250"}
+		if zeroTimeout {
+			req.Header["Connect-Timeout-Ms"] = []string{"0"} // a timeout of zero is a timeout, not an absent one
+		}
 	}
 	vServerReq, vLateTrailers = req, nil
 	if hasTrailers {
@@ -421,7 +429,7 @@ func H12c_q() {
 	vAssert(h.calls == 1, "a named request reaches the handler")
 	vAssert((rec.n == 0) == !hasTrailers, "a conformant request gets no feedback; request trailers are flagged")
 	vAssert(!rec.badName, "feedback names the test case")
-	vAssert(h.hasTimeout == hasTimeout && (!hasTimeout || h.gotTimeout == 250*time.Millisecond), "the timeout is handed to the handler through the context as the exact duration")
+	vAssert(h.hasTimeout == hasTimeout && (!hasTimeout || h.gotTimeout == wantTimeout), "the timeout is handed to the handler through the context as the exact duration (a zero timeout included)")
 	vAssert(!h.sawHeader, "the timeout header is removed so that the server does not enforce it")
 	if repeat {
 		before := rec.n
